@@ -90,11 +90,14 @@ static std::vector<std::string> split_tab(const std::string& s) {
 
 int main(int argc, char** argv) {
     if (argc < 3) return 2;
+    // several independent instances of the same program may be driven by one script ("instance K" switches)
+    std::vector<SouffleProgram*> instances;
     SouffleProgram* prog = ProgramFactory::newInstance(argv[1]);
     if (!prog) {
         std::cerr << "no program " << argv[1] << "\n";
         return 3;
     }
+    instances.push_back(prog);
     std::ifstream in(argv[2]);
     std::string line;
     std::size_t n = 0;
@@ -104,7 +107,12 @@ int main(int argc, char** argv) {
         auto f = split_tab(line);
         const std::string& op = f[0];
         std::cout << "op " << n << " " << op;
-        if (op == "threads") {
+        if (op == "instance") {
+            std::size_t k = (std::size_t)std::stoul(f[1]);
+            while (instances.size() <= k) instances.push_back(ProgramFactory::newInstance(argv[1]));
+            prog = instances[k];
+            std::cout << " ok\n";
+        } else if (op == "threads") {
             prog->setNumThreads((std::size_t)std::stoul(f[1]));
             std::cout << " ok\n";
         } else if (op == "run") {
@@ -173,6 +181,6 @@ int main(int argc, char** argv) {
             }
         }
     }
-    delete prog;
+    for (auto* p : instances) delete p;
     return 0;
 }
